@@ -348,8 +348,8 @@ def materialise_world(sc, dirpath):
 def draw_config(rng, reference=False, allow=None):
     if reference:
         return {"threads": 1, "othreads": 1, "pool": {"mode": "fifo", "script": [], "seed": 0},
-                "clock": {"enabled": [], "script": [], "seed": 0}, "repeat": "none"}
-    allow = allow or {"threads", "othreads", "pool", "clock", "repeat"}
+                "clock": {"enabled": [], "script": [], "seed": 0}, "repeat": "none", "env": {}}
+    allow = allow or {"threads", "othreads", "pool", "clock", "repeat", "env"}
     cfg = draw_config(rng, reference=True)
     if "threads" in allow:
         cfg["threads"] = rng.choice([1, 2, 2, 3, 4, 5])
@@ -362,6 +362,10 @@ def draw_config(rng, reference=False, allow=None):
         cfg["clock"] = {"enabled": en, "script": [rng.randrange(1 << 20) for _ in range(rng.choice([0, 16]))], "seed": rng.randrange(1 << 30)}
     if "repeat" in allow:
         cfg["repeat"] = rng.choice(["none", "none", "twice", "dirty"])
+    if "env" in allow:
+        # the process environment is not an input either
+        cfg["env"] = rng.choice([{}, {}, {"TZ": "Pacific/Kiritimati"}, {"TZ": "America/St_Johns"}, {"LC_ALL": "C"}, {"LC_ALL": "C.UTF-8", "LANG": "C.UTF-8"},
+                                 {"COLUMNS": "37", "LINES": "9"}, {"TMPDIR": "{node}/tmp"}, {"HOME": "{node}/home"}, {"USER": "someoneelse", "LOGNAME": "someoneelse"}])
     return cfg
 
 
@@ -405,7 +409,7 @@ def gen_case(rng, tier, catalogue):
         ref = k < 2
         hs = 0 if ref else rng.choice([1, 2, 3, 5, 7, 11, 13, 42, 123, 1000, 4242, 65537, rng.randrange(1, 2**32 - 1)])
         # swarm: each faulted node enables a random subset of fault dimensions
-        allow = None if ref else {d for d in ("threads", "othreads", "pool", "clock", "repeat") if rng.random() < 0.7}
+        allow = None if ref else {d for d in ("threads", "othreads", "pool", "clock", "repeat", "env") if rng.random() < 0.7}
         cfgs = [draw_config(rng, reference=ref, allow=allow) for _ in chosen]
         nodes.append({"hashseed": hs, "configs": cfgs})
     return {"scenarios": chosen, "worlds": worlds, "nodes": nodes}
@@ -490,8 +494,9 @@ def first_diff(casedir, k0, k1, idx, name):
 
 
 def describe_cfg(node, cfg):
-    return "hashseed=%s threads=%d out-threads=%d pool=%s clock=%s repeat=%s" % (
-        node["hashseed"], cfg["threads"], cfg["othreads"], cfg["pool"]["mode"], "+".join(cfg["clock"]["enabled"]) or "monotone", cfg["repeat"])
+    return "hashseed=%s threads=%d out-threads=%d pool=%s clock=%s repeat=%s%s" % (
+        node["hashseed"], cfg["threads"], cfg["othreads"], cfg["pool"]["mode"], "+".join(cfg["clock"]["enabled"]) or "monotone", cfg["repeat"],
+        " env=%s" % ",".join("%s=%s" % kv for kv in sorted(cfg.get("env", {}).items())) if cfg.get("env") else "")
 
 
 def blame(node, cfg):
@@ -509,6 +514,8 @@ def blame(node, cfg):
         dims.append("clock")
     if cfg["repeat"] != "none":
         dims.append("repeat")
+    if cfg.get("env"):
+        dims.append("env")
     return dims
 
 
@@ -615,6 +622,8 @@ class NodeEngine(Engine):
                     stats["sim_clock_seconds_x1000"] = stats.get("sim_clock_seconds_x1000", 0) + int(r["clock"]["covered"] * 1000)
                     if cfg["repeat"] != "none":
                         stats.inc("fault_repeat-" + cfg["repeat"])
+                    for ek in sorted(cfg.get("env", {})):
+                        stats.inc("fault_env-" + ek)
                     if node["hashseed"] != 0:
                         stats.inc("fault_hashseed-change")
                     if cfg["threads"] != 1 and "{threads}" in sc["argv"]:
@@ -709,8 +718,8 @@ class NodeEngine(Engine):
                 c["nodes"][k]["hashseed"] = 0
                 yield c
             for i, cfg in enumerate(n["configs"]):
-                for key in ("repeat", "clock", "pool", "othreads", "threads"):
-                    if cfg[key] != refcfg[key]:
+                for key in ("repeat", "clock", "pool", "othreads", "threads", "env"):
+                    if cfg.get(key, refcfg[key]) != refcfg[key]:
                         c = copy.deepcopy(case)
                         c["nodes"][k]["configs"][i][key] = copy.deepcopy(refcfg[key])
                         yield c
